@@ -1,7 +1,7 @@
 (* Entry points of the extracted model: [run cmd arg]. *)
 From Coq Require Import NArith List Bool.
 From PV Require Import Base.Sx Model.Forest Model.Table Model.LRDriver Model.Scan Model.Parser
-  Validators.TableStruct Extract.Codec.
+  Validators.TableStruct Extract.Codec Extract.RunC09.
 Import ListNotations.
 Local Open Scope N_scope.
 
@@ -37,5 +37,6 @@ Definition run (cmd : N) (arg : sx) : sx :=
   | 3 => run_table_struct arg
   | 4 => run_lr_parse arg
   | 5 => run_tree_ok arg
+  | 90 | 91 | 92 | 93 | 94 | 95 => run_c09 cmd arg
   | _ => L [A 999999]
   end.
